@@ -36,12 +36,13 @@ TRANSPARENT = set(norm(p) for p in [
 
 
 class Slicer(object):
-    def __init__(self, world, body, transparent=None, local_transparent=()):
+    def __init__(self, world, body, transparent=None, local_transparent=(), follow_local=True):
         self.world = world
         self.prog = world.prog
         self.body = body
         self.transparent = TRANSPARENT if transparent is None else transparent
         self.local_transparent = set(local_transparent)
+        self.follow_local = follow_local
         self._memo = {}
 
     def leaves_of_operand(self, op, path=()):
@@ -155,7 +156,7 @@ class Slicer(object):
             return self._operand(t["args"][0], path, visiting)
         # a crate-local function whose result is (a newtype of / a field of) its parameters only
         c = t.get("callee") or {}
-        if c.get("rk") == "item" and c.get("rlocal"):
+        if self.follow_local and c.get("rk") == "item" and c.get("rlocal"):
             tgt = self.prog.bodies.get(c.get("resolved"))
             ret = _return_leaves(self.world, tgt) if tgt is not None else None
             if ret is not None:
